@@ -47,6 +47,15 @@ class C14(Prop):
                     p["scripts"]["%d:1" % op["id"]] = {"replies": [{"k": "none"}]}
             p["sessions"][0]["timeout_ns"] = 1_000_000
             p["ops"] = [o for o in p["ops"] if o["op"] not in ("walk",)]
+        if family != "long":
+            # replies that fail inside the decrypt path (ciphertext cut short, foreign salt) and stale copies
+            ids = [o["id"] for o in p["ops"] if "id" in o and o["op"] in ("get", "get_many")]
+            for oid_ in ids:
+                r = rng.random()
+                if r < 0.15:
+                    p["scripts"]["%d:1" % oid_] = {"replies": [{"k": "genuine", "rewrite": {"cipher-trim": rng.randint(1, 9)}}] + ([{"k": "genuine", "delay_ns": 1_500_001}] if rng.random() < 0.5 else [])}
+                elif r < 0.25:
+                    p["scripts"]["%d:1" % oid_] = {"replies": [{"k": "genuine", "rewrite": {"salt": bytes(rng.randrange(256) for _ in range(8)).hex(), "msg-id": rng.choice(["same", "xor1"])}}, {"k": "genuine", "delay_ns": 1_500_001}]}
         if family.startswith("wrap"):
             near = rng.randint(1, max(2, n // 2))
             salt = ((2**32 if family == "wrap-des" else 2**64) - near) & 0xFFFFFFFFFFFFFFFF
@@ -58,6 +67,7 @@ class C14(Prop):
 
     def check(self, run):
         out = []
+        oid_hist = {}
         seen = {}
         prev = {}
         count = {}
@@ -107,15 +117,18 @@ class C14(Prop):
                 if ctr < prev[s][0]:
                     run.sim.count("probe.des-wrap-crossed" if palg == 1 else "probe.aes-wrap-crossed")
             prev[s] = (ctr, salt[:4])
-            # nothing of the scoped PDU outside the ciphertext
-            clear = raw.replace(m["encrypted"], b"")
+            # nothing of the scoped PDU readable anywhere in the datagram: the OIDs of this and of earlier
+            # requests (two random 32-bit arcs each) cannot occur in ciphertext by chance
             run.sim.count("probe.cleartext-scan")
             if "pdu" in dec:
                 for o in dec["pdu"]["varbinds"]:
                     enc = ber.oid_content(o)
-                    if len(enc) >= 6 and enc[2:] in clear:
-                        out.append(V("C14.oid-in-clear", "OID %s visible outside the ciphertext" % ber.oid_text(o), alg=palg))
-                        break
+                    if len(enc) >= 12:
+                        oid_hist.setdefault(s, []).append((ber.oid_text(o), enc[3:]))
+            for name, frag in oid_hist.get(s, [])[-12:]:
+                if frag in raw:
+                    out.append(V("C14.oid-in-clear", "the encoding of OID %s is readable in the datagram (offset %d of %d)" % (name, raw.find(frag), len(raw)), alg=palg))
+                    break
         if any(c >= 200 for c in count.values()):
             run.sim.count("probe.long-history")
         run.c14 = (sorted((s, first[s].hex(), count[s]) for s in first))
